@@ -95,6 +95,11 @@ func TestWorker(t *testing.T) {
 				}
 			}
 			fmt.Println()
+			if os.Getenv("VERIF_MEMLOG") != "" && i%50 == 49 {
+				var ms runtime.MemStats
+				runtime.ReadMemStats(&ms)
+				fmt.Printf("MEM run=%d heapAlloc=%dMB heapSys=%dMB goroutines=%d numGC=%d\n", i, ms.HeapAlloc>>20, ms.HeapSys>>20, runtime.NumGoroutine(), ms.NumGC)
+			}
 		}
 	}
 }
